@@ -19,6 +19,31 @@ def C(ch):
 
 Z = z3.BitVecVal(0, 8)
 
+_CTX = z3.main_ctx()
+_CREF = _CTX.ref()
+_INTS = {}
+
+
+def IV(k):
+    """cached z3.IntVal"""
+    r = _INTS.get(k)
+    if r is None:
+        r = _INTS[k] = z3.IntVal(k)
+    return r
+
+
+def fIf(c, a, b):
+    """z3.If through the C API (no coercion: c Bool term, a/b terms of one sort)"""
+    return a.__class__(z3.Z3_mk_ite(_CREF, c.ast, a.ast, b.ast), _CTX)
+
+
+def fEq(a, b):
+    return z3.BoolRef(z3.Z3_mk_eq(_CREF, a.ast, b.ast), _CTX)
+
+
+def fLt(a, b):
+    return z3.BoolRef(z3.Z3_mk_lt(_CREF, a.ast, b.ast), _CTX)
+
 
 def zmax(a, b):
     return z3.If(a >= b, a, b)
@@ -43,12 +68,15 @@ def _simp(x):
 
 
 class SymStr:
-    def __init__(self, cs, n):
+    def __init__(self, cs, n, lo=0):
         self.cs = list(cs)
         self.n = n           # python int, SymInt or z3 ArithRef
         if isinstance(n, SymInt):
             self.n = n.e
         self.cap = len(self.cs)
+        # guaranteed lower bound of the length (python int); only ever used to
+        # skip case distinctions that cannot arise
+        self.lo = self.n if isinstance(self.n, int) else max(0, min(lo, self.cap))
         if self.cap > MAXCAP:
             raise Unsupported('string capacity %d exceeds %d' % (self.cap, MAXCAP))
 
@@ -67,7 +95,7 @@ class SymStr:
             else:
                 ok = z3.Or([c == C(a) for a in alphabet if a not in exclude])
             cons.append(z3.If(i < n, ok, c == Z))
-        return SymStr(cs, n), cons
+        return SymStr(cs, n, lo=minlen), cons
 
     @staticmethod
     def of(x):
@@ -108,7 +136,12 @@ class SymStr:
             return self.at(idx.as_long())
         r = Z
         for k in reversed(range(self.cap)):
-            r = z3.If(idx == k, self.cs[k], r)
+            ck = self.cs[k]
+            if ck is r:
+                continue
+            if not isinstance(ck, z3.BitVecRef):
+                ck = C(ck)
+            r = z3.BitVecRef(z3.Z3_mk_ite(_CREF, fEq(idx, IV(k)).ast, ck.ast, r.ast), _CTX)
         return r
 
     def concrete(self, model):
@@ -173,10 +206,11 @@ class SymStr:
         if isinstance(self.n, int):
             cs = self.cs[:self.n] + o.cs
             cs += [Z] * (cap - len(cs))
-            return SymStr(cs[:self.n + o.cap], (self.n + o.n) if isinstance(o.n, int) else _simp(self.n + o.nz()))
+            return SymStr(cs[:self.n + o.cap], (self.n + o.n) if isinstance(o.n, int) else _simp(self.n + o.nz()),
+                          lo=self.n + o.lo)
         n = self.nz()
-        cs = [_simp(z3.If(k < n, self.at(k), o.at(k - n))) for k in range(cap)]
-        return SymStr(cs, _simp(n + o.nz()))
+        cs = [self.cs[k] if k < self.lo else _simp(z3.If(k < n, self.at(k), o.at(k - n))) for k in range(cap)]
+        return SymStr(cs, _simp(n + o.nz()), lo=self.lo + o.lo)
 
     def __radd__(self, o):
         if not isinstance(o, (str, SymStr)):
@@ -337,13 +371,35 @@ class SymStr:
                 a = a + z3.If(run, 1, 0)
         b = n
         if right:
-            run = z3.BoolVal(True)
+            # trail[i]: position i belongs to the strippable run that ends the
+            # string (one linear pass instead of cap symbolic look-ups)
+            trail = z3.BoolVal(False)
             t = z3.IntVal(0)
-            for k in range(cap):
-                run = z3.And(run, k < n, isw(self.at(n - 1 - k)))
-                t = t + z3.If(run, 1, 0)
+            for i in reversed(range(cap)):
+                ci = self.cs[i]
+                w = _simp(isw(ci))
+                if z3.is_false(w):
+                    if i < self.lo:
+                        break          # a surviving character below the guaranteed length
+                    trail = z3.BoolVal(False)
+                    continue
+                last = (n == i + 1)
+                trail = z3.And(i < n, w, z3.Or(last, trail)) if i >= self.lo else z3.And(w, z3.Or(last, trail))
+                t = t + z3.If(trail, 1, 0)
             b = zmax(n - t, a)
-        return self[SymInt(_simp(a)):SymInt(_simp(b))]
+        a = _simp(a)
+        b = _simp(b)
+        if z3.is_int_value(a) and a.as_long() == 0 and not z3.is_int_value(b):
+            # nothing stripped on the left: keep the characters that are known to
+            # survive (up to the last concrete non-strippable one below `lo`)
+            lo2 = 0
+            for k in range(min(self.lo, cap)):
+                ck = self.cs[k]
+                if z3.is_bv_value(ck) and z3.is_false(_simp(isw(ck))):
+                    lo2 = k + 1
+            cs = [self.cs[k] if k < lo2 else _simp(z3.If(k < b, self.cs[k], Z)) for k in range(cap)]
+            return SymStr(cs, b, lo=lo2)
+        return self[SymInt(a):SymInt(b)]
 
     def strip(self, chars=None):
         return self._strip(True, True, chars)
@@ -720,3 +776,56 @@ def spaces(k, cap):
     k = lift(k)
     cs = [_simp(z3.If(i < k, C(' '), Z)) for i in range(cap)]
     return SymStr(cs, k)
+
+
+def dedent_identity_cond(s):
+    """z3 Bool: textwrap.dedent(s) == s, i.e. (a) no line consists of blanks
+    (space/tab) only, and (b) the common margin is empty because some line
+    with content starts with a non-blank character (or no line has content)."""
+    s = SymStr.of(s)
+    n = s.nz()
+    cap = s.cap
+    sp = [z3.Or(c == C(' '), c == C('\t')) for c in s.cs]
+    nl = [c == C('\n') for c in s.cs]
+    # blank_to_eol[i]: s[i] is a blank and only blanks follow up to the line end
+    bte = [None] * (cap + 1)
+    bte[cap] = z3.BoolVal(False)
+    for i in reversed(range(cap)):
+        at_end = z3.Or(n == i + 1, nl[i + 1] if i + 1 < cap else z3.BoolVal(True))
+        bte[i] = z3.And(i < n, sp[i], z3.Or(at_end, bte[i + 1]))
+    starts = [z3.BoolVal(True) if i == 0 else nl[i - 1] for i in range(cap)]
+    no_ws_only = z3.And([z3.Not(z3.And(starts[i], bte[i])) for i in range(cap)])
+    # a line with content that starts with a non-blank
+    flush = z3.Or([z3.And(starts[i], i < n, z3.Not(sp[i]), z3.Not(nl[i])) for i in range(cap)])
+    # any line with content that starts with a blank (only then a margin exists)
+    indented = z3.Or([z3.And(starts[i], i < n, sp[i], z3.Not(bte[i])) for i in range(cap)])
+    # two content lines that start with different blank characters also leave
+    # an empty common margin
+    sp_start = z3.Or([z3.And(starts[i], i < n, s.cs[i] == C(' '), z3.Not(bte[i])) for i in range(cap)])
+    tab_start = z3.Or([z3.And(starts[i], i < n, s.cs[i] == C('\t'), z3.Not(bte[i])) for i in range(cap)])
+    return z3.And(no_ws_only, z3.Or(flush, z3.Not(indented), z3.And(sp_start, tab_start)))
+
+
+def sym_select(idx, options):
+    """merged choice: the string options[idx] for a z3 Int / SymInt index
+    (idx is assumed to range over 0..len(options)-1); nothing forks"""
+    idx = I(idx)
+    opts = [SymStr.of(o) for o in options]
+    cap = max(o.cap for o in opts)
+    cs = []
+    for k in range(cap):
+        r = opts[-1].cs[k] if k < opts[-1].cap else Z
+        for j in reversed(range(len(opts) - 1)):
+            c = opts[j].cs[k] if k < opts[j].cap else Z
+            r = z3.If(idx == j, c, r)
+        cs.append(_simp(r))
+    n = opts[-1].nz()
+    for j in reversed(range(len(opts) - 1)):
+        n = z3.If(idx == j, opts[j].nz(), n)
+    return SymStr(cs, _simp(n), lo=min(o.lo for o in opts))
+
+
+def sym_ite(cond, a, b):
+    """merged choice between two strings on a z3 Bool / SymBool"""
+    c = I(cond)
+    return sym_select(z3.If(c, 0, 1), [a, b])
